@@ -1538,6 +1538,7 @@ def _check_feed(run, repo, world):
                pred.show(got) or "never",
                (" and only when `%s`" % bad) if bad else ""),
            where(mod, fn))
+    _check_report_fifo(run, world, mod, c)
     # framing-error field in _bus_watch: byte 3 of the report's frame field
     from ..drv import expand_method
     bfn = expand_method(world, c, c.methods["_bus_watch"][1],
@@ -1554,7 +1555,8 @@ def _check_feed(run, repo, world):
     msgvar = rawvar = None
     for n in ast.walk(bfn):
         if isinstance(n, ast.Assign) and isinstance(n.value, ast.Call):
-            if unparse(n.value.func) == "self._bus_watch_data.pop":
+            if unparse(n.value.func) in ("self._bus_watch_data.pop",
+                                         "self._bus_watch_data.popleft"):
                 msgvar = unparse(n.targets[0])
             if unparse(n.value.func) == "self._resptmpl.unpack" and \
                     isinstance(n.targets[0], ast.Tuple) and len(
@@ -1593,3 +1595,90 @@ def _only_called_from(world, modname, meth, caller):
                 if name != caller:
                     return False
     return n > 0
+
+
+
+def _check_report_fifo(run, world, mod, c):
+    """R-FEED #oldest-report-first: the reports queued by the read handler
+    reach the watcher in the order they arrived.  The container the driver
+    builds (a list or a collections.deque), the end the handler adds at and
+    the end the watcher takes from are read from the class; only the pairs
+    (append, pop(0)) on a list and (append, popleft()) / (appendleft, pop())
+    on a deque (or insert(0, x) / pop() on a list) are first-in first-out.
+    With two reports queued before the watcher runs - a query and its answer,
+    an ENABLE DEVICE TYPE and the command it applies to - any other pair
+    hands them over newest first."""
+    Qn = "self._bus_watch_data"
+    kinds, adds, takes = set(), [], []
+    for name, (kind, f) in c.methods.items():
+        for n in ast.walk(f):
+            if isinstance(n, ast.Assign) and any(
+                    unparse(t) == Qn for t in n.targets):
+                v = n.value
+                if isinstance(v, ast.List) and not v.elts or (
+                        isinstance(v, ast.Call) and unparse(v.func) == "list"
+                        and not v.args):
+                    kinds.add("list")
+                elif isinstance(v, ast.Call) and unparse(v.func) in (
+                        "collections.deque", "deque") and not v.args and \
+                        not v.keywords:
+                    kinds.add("deque")
+                else:
+                    kinds.add("?" + unparse(v, 60))
+            if isinstance(n, ast.Call) and isinstance(
+                    n.func, ast.Attribute) and unparse(n.func.value) == Qn:
+                a = n.func.attr
+                if a in ("append", "appendleft", "insert", "extend",
+                         "extendleft"):
+                    adds.append((a, n))
+                elif a in ("pop", "popleft"):
+                    takes.append((a, n))
+    if not adds or not takes or not kinds:
+        raise AnalysisError("R-FEED: the report queue %s is not built, "
+                            "filled and emptied in a form the rule reads "
+                            "(%s / %s / %s)" % (Qn, sorted(kinds), [
+                                a for a, _ in adds], [a for a, _ in takes]))
+    if any(k.startswith("?") for k in kinds) or len(kinds) != 1:
+        raise AnalysisError("R-FEED: the report queue %s is built as %s; "
+                            "the rule reads an empty list or an empty "
+                            "collections.deque" % (Qn, sorted(kinds)))
+    kind = next(iter(kinds))
+
+    def add_end(a, n):
+        if a == "append":
+            return "right"
+        if a == "appendleft" and kind == "deque":
+            return "left"
+        if a == "insert" and kind == "list" and len(n.args) == 2 and \
+                isinstance(n.args[0], ast.Constant) and n.args[0].value == 0:
+            return "left"
+        return None
+
+    def take_end(a, n):
+        if a == "popleft" and kind == "deque" and not n.args:
+            return "left"
+        if a == "pop" and not n.args:
+            return "right"
+        if a == "pop" and kind == "list" and len(n.args) == 1 and isinstance(
+                n.args[0], ast.Constant) and n.args[0].value == 0:
+            return "left"
+        if a == "pop" and kind == "list" and len(n.args) == 1 and isinstance(
+                n.args[0], ast.UnaryOp) and unparse(n.args[0]) == "-1":
+            return "right"
+        return None
+    ae = {add_end(a, n) for a, n in adds}
+    te = {take_end(a, n) for a, n in takes}
+    if None in ae or None in te:
+        raise AnalysisError("R-FEED: %s is filled with %s and emptied with "
+                            "%s on a %s; not forms whose end the rule knows"
+                            % (Qn, [unparse(n, 60) for _, n in adds],
+                               [unparse(n, 60) for _, n in takes], kind))
+    ok = len(ae) == 1 and len(te) == 1 and ae != te
+    run.ob("R-FEED", HID + ".tridonic#oldest-report-first", ok,
+           "reports are added at the %s end of the %s %s (`%s`) and taken "
+           "from the %s end (`%s`): two reports queued before the watcher "
+           "runs are handled newest first - a query is seen after its own "
+           "answer, a device-type prefix after the command it belongs to" % (
+               "/".join(sorted(ae)), kind, Qn, unparse(adds[0][1], 60),
+               "/".join(sorted(te)), unparse(takes[0][1], 60)),
+           where(mod, takes[0][1]))
